@@ -612,7 +612,7 @@ func c03Expand(cfg c03Cfg, level int, rng *rand.Rand) []c03Dims {
 		case 1:
 			sweep, sampled = []int{3}, append(rep(16, 2), 256)
 		case 2:
-			sweep, sampled = []int{3}, append(rep(16, 6), 256, 256)
+			sweep, sampled = []int{3}, append(rep(16, 3), 256)
 		default:
 			sweep, sampled, bigOneIn, bigs = []int{3, 16}, rep(256, 32), 2, 2
 		}
@@ -697,7 +697,7 @@ func c03Replay(t *testing.T) {
 				t.Fatalf("behaviour %d: world %v: %v", i, dm, err)
 			}
 			worlds++
-			all := worlds%4 == 0 || (level >= 3 && b.Cfg.Kind == "file")
+			all := worlds%4 == 0 || (level >= 3 && b.Cfg.Kind == "file" && worlds%2 == 0)
 			for k, st := range b.Steps {
 				if err := w.materialize(st.St, st.Base, st.Cont); err != nil {
 					t.Fatalf("behaviour %d step %d: materialize: %v", i, k, err)
